@@ -13,19 +13,19 @@ CFG = {
     },
     "rule_text": "arith: one case = an operand pair (a, b) with the implementation's result of `{{ a OP b }}` for every OP in + - * / // % ** "
                  "that the model computes on that pair (integer results with their representation tag, float results by bit pattern, errors by class); "
-                 "cmp: one case = a pair with the six results of == != < <= > >=; neg: one operand; prim: Rust's own `as f64` / floor / `as i128` / `as u128` "
+                 "cmp: one case = a pair with the six results of == != < <= > >=; neg: one operand; prim: Rust's own `as f64` / floor / trunc / `as i128` / `as u128` / `%` / rem_euclid / div_euclid "
                  "against the model's f64 primitives. Distinct by the Gallina term of the case. Non-trivial = both operands usable numbers and not both zero (arith), "
                  "operands of different representation (cmp), non-zero number (neg), non-integral or finite float / any integer (prim). "
-                 "NOT compared with the model, only run for the no-panic oracle (counted in extra.oracle_only_evaluations): `//` and `%` with a float operand "
-                 "(f64::div_euclid / f64::rem_euclid) and `**` with a float operand or a negative integer exponent (f64::powf). "
+                 "NOT compared with the model, only run for the no-panic oracle (counted in extra.oracle_only_evaluations): `**` with a float operand or a negative "
+                 "integer exponent (f64::powf). Float `//` and `%` ARE compared (f64::div_euclid / rem_euclid modelled over an exact fmod). "
                  "Thorough tier: every ordered pair of boundary values (arith, one random representation per integer) and every ordered pair of pool numbers in "
                  "every representation (cmp); quick tier: random pairs over the same pools + random integers of every bit length + floats next to integers.",
     "trusted_base": TB_COMMON + [
         "axioms: none (every C13 theorem is 'Closed under the global context')",
         "modelled, not verified: i128::checked_add/sub/mul/neg/pow, div_euclid/rem_euclid, wrapping_rem_euclid (modelled on Z with explicit range tests, "
         "div/rem_euclid from their std source text over truncating Z.quot/Z.rem, checked_pow by its contract `exact power iff representable`); IEEE-754 binary64 "
-        "+ - * / and comparisons as Coq.Floats.SpecFloat (prec 53, emax 1024), `as f64` as SpecFloat.binary_normalize (round to nearest even), f64::floor and the "
-        "saturating `as i128`/`as u128` casts as hand-written functions on spec_float — all five cross-checked against Rust's own results by the `prim` family; "
+        "+ - * / and comparisons as Coq.Floats.SpecFloat (prec 53, emax 1024), `as f64` as SpecFloat.binary_normalize (round to nearest even), f64::floor, f64::trunc, `%` on f64 (exact fmod), f64::rem_euclid, f64::div_euclid and the "
+        "saturating `as i128`/`as u128` casts as hand-written functions on spec_float — all cross-checked against Rust's own results by the `prim` family; "
         "NaN payloads and the sign of NaN are not represented (spec_float has one NaN)",
         "the implementation is observed through render_str(\"{{ (a OP b) | probe }}\") with operands inserted into the Context (LoadName, LoadName, OP, ApplyFilter), "
         "i.e. through the VM instructions Plus/Minus/Mul/Div/FloorDiv/Mod/Power/Negative/Equal/NotEqual/LessThan/...; constant folding of literals is not on this path",
@@ -35,8 +35,7 @@ CFG = {
                  "vm/interpreter.rs math_binop!, ordering_binop!, op_binop!(==, !=), Plus, Negative (operand checks and error mapping)"],
     "assumptions": ["floats are valid binary64 values (SpecFloat.valid_binary 53 1024), integers satisfy the range of their representation tag",
                     "implementation == model only on the cases enumerated by the harness",
-                    "f64::powf, f64::rem_euclid, f64::div_euclid are outside the model: the property only says such operations are 'carried out in floating point'; "
-                    "the harness checks that they do not panic",
+                    "f64::powf is outside the model: the property only says such operations are 'carried out in floating point'; the harness checks that it does not panic",
                     "`**` with an exponent above u32::MAX is excluded from the pow theorem (known finding pow:exponent>u32::MAX)"],
 }
 
